@@ -1216,6 +1216,12 @@ func (sd *c03Side) project() map[string]any {
 	}
 	if ms, ok := m["mounts"].([]any); ok {
 		mm := map[string]any{}
+		var order []string
+		for _, x := range ms {
+			order = append(order, x.(map[string]any)["destination"].(string))
+		}
+		// the order of mounts matters to a runtime (parents before children): both sides sort
+		m["__mount_order"] = order
 		for _, x := range ms {
 			d := x.(map[string]any)["destination"].(string)
 			if _, dup := mm[d]; dup {
